@@ -10,6 +10,7 @@ import (
 	"encoding/pem"
 	"fmt"
 	"regexp"
+	"strconv"
 	"strings"
 	"sync"
 	"time"
@@ -721,11 +722,32 @@ func match(filter string, attr string) (bool, error) {
 		element = strings.Trim(element, "(")
 		element = strings.Trim(element, ")")
 		element = strings.TrimSpace(element)
-		if strings.Contains(attr, element) {
+		if strings.Contains(attr, element) || strings.Contains(attr, unescapeFilterValue(element)) {
 			return true, nil
 		}
 	}
 	return false, nil
+}
+
+// unescapeFilterValue reverses the \xx escaping of a decompiled filter (RFC
+// 4515), so values with non-ASCII or special bytes can be compared with the
+// raw DNs and attribute values of the directory's entries.
+func unescapeFilterValue(s string) string {
+	if !strings.Contains(s, `\`) {
+		return s
+	}
+	var b strings.Builder
+	for i := 0; i < len(s); i++ {
+		if s[i] == '\\' && i+2 < len(s) {
+			if v, err := strconv.ParseUint(s[i+1:i+3], 16, 8); err == nil {
+				b.WriteByte(byte(v))
+				i += 2
+				continue
+			}
+		}
+		b.WriteByte(s[i])
+	}
+	return b.String()
 }
 
 // Conn returns an *ldap.Conn that's connected (using whatever tls.Config is
